@@ -194,8 +194,14 @@ func marksOf(ss grpc.ServerStream) []int64 {
 	return nil
 }
 
+// the method name every interceptor must be shown in info.FullMethod ("" = not checked); set per scenario
+var stExpectMethod string
+
 func recStream(log *chainLog, j int64, b beh) grpc.StreamServerInterceptor {
 	return func(srv any, ss grpc.ServerStream, info *grpc.StreamServerInfo, handler grpc.StreamHandler) error {
+		if stExpectMethod != "" && info.FullMethod != stExpectMethod {
+			log.add(fmt.Sprintf("EHandler [-1] [%d]", j)) // shown another method's name: an event the model never has
+		}
 		log.add(fmt.Sprintf("EPre %d %s %s", j, zs(ctxToks(ss.Context())), zs(marksOf(ss))))
 		switch b.k {
 		case bModCtx:
